@@ -220,7 +220,12 @@ def syntax_matrix():
             if ("qubit" in d) and pn in ("method body", "constructor body"):
                 continue
             marks = (["a"] if pn == "after a statement" else []) + ["m"]
-            out.append(("%s / %s" % (dn, pn), BOX + pos % (d + " echo(\"d\");"), [marks[0]] + ["d"] + marks[1:] if pn == "after a statement" else ["d", "m"]))
+            entry = ("%s / %s" % (dn, pn), BOX + pos % (d + " echo(\"d\");"), [marks[0]] + ["d"] + marks[1:] if pn == "after a statement" else ["d", "m"])
+            if "@tracked" in d:
+                # every declarator of an annotated declaration carries the annotation: each gets its outcome table
+                names = [x.strip() for x in d.rstrip(";").split("]")[-1].replace("@tracked qubit", "").split(",")]
+                entry = entry + (sorted(("qubit[] " if "[" in d else "qubit ") + x for x in names),)
+            out.append(entry)
     # for-initialisers of the documented primitive types, final, expression initialiser, empty
     for t, lit in (("int", "0"), ("float", "0.5f"), ("char", "'a'"), ("string", "\"\""), ("bit", "0b")):
         out.append(("for (%s ...)" % t, "function main() -> void { int n = 0; for (%s v = %s; n < 2; n = n + 1) { echo(\"b\"); } echo(\"m\"); }" % (t, lit), ["b", "b", "m"]))
@@ -400,8 +405,16 @@ def run(chk):
     sm = syntax_matrix()
     sres = lcm.run_impl([x[1] for x in sm], opts="draws=0.5,0.5,0.5,0.5,0.5,0.5")
     sbad = 0
-    for (name, src, want), r in zip(sm, sres):
+    for entry, r in zip(sm, sres):
+        name, src, want = entry[:3]
         got = (r.get("stdout") or "").split("\n")[:-1] if r.get("stdout") else []
+        tracked_ok = len(entry) < 4 or sorted((r.get("tracked") or {}).keys()) == entry[3]
+        if r.get("status") == "ok" and got == want and not tracked_ok:
+            sbad += 1
+            chk.report("c14-form", {"form": name, "source": src, "expected_tracked_tables": entry[3], "tracked_tables": sorted((r.get("tracked") or {}).keys()),
+                                    "how": "run /repo's bloch on the source; list the @tracked tables"},
+                       "annotated declaration `%s`: tracked tables %s, expected %s" % (name, sorted((r.get("tracked") or {}).keys()), entry[3]))
+            continue
         if r.get("status") != "ok" or got != want:
             sbad += 1
             chk.report("c14-form", {"form": name, "source": src, "expected_output": want,
